@@ -215,6 +215,8 @@ def run_verus(text, extra_args=(), tag='main'):
     os.makedirs(CACHE_DIR, exist_ok=True)
     args = ['--triggers-mode', 'silent', '--output-json', '--time-expanded', '--error-format=json',
             '--multiple-errors', '50', '--num-threads', '16'] + list(extra_args)
+    if '--rlimit' not in args:
+        args += ['--rlimit', '60']   # generous default (Verus default is 10): headroom against solver perturbation
     h = hashlib.sha256((text + '\0' + ' '.join(args) + '\0' + verus_version()).encode()).hexdigest()
     cpath = os.path.join(CACHE_DIR, h + '.json')
     gen = os.path.join(GEN_DIR, GEN_NAME if tag == 'main' else 'fastqr_%s.rs' % tag)
